@@ -14,6 +14,10 @@ def make_plan(prop, rng, idx, tier, variant="asan"):
             plan = hist.gen_sole_survivor(rng, "C12")
             plan["knobs"]["scon_fatal"] = 0
             return plan, "sole-survivor"
+        if idx % 25 == 18:
+            plan = hist.gen_flavours(rng, "C12")
+            plan["knobs"]["scon_fatal"] = 0
+            return plan, "value-flavours"
         if idx % 25 == 4:
             plan = hist.gen_replaced_file(rng, "C12")
             plan["knobs"]["scon_fatal"] = 0
@@ -31,6 +35,8 @@ def make_plan(prop, rng, idx, tier, variant="asan"):
             return hist.gen_sole_survivor(rng, "C13"), "sole-survivor"
         if idx % 40 == 26:
             return hist.gen_replaced_file(rng, "C13"), "replaced-file"
+        if idx % 40 == 6:
+            return hist.gen_flavours(rng, "C13"), "value-flavours"
         if idx % 20 == 9 and variant != "vg":
             # the CLI is one of the executions the property quantifies over
             from . import cli
